@@ -24,7 +24,15 @@ import (
 
 var logw io.Writer = os.Stderr
 
-const repoDir = "/repo"
+// repoDir is the tree under check: /repo for every registered command; VERIF_REPO points the same machinery at
+// a scratch worktree (used only to try seeded changes without touching /repo; evidence then goes to a scratch
+// directory, never to /verif/evidence).
+var repoDir = func() string {
+	if d := os.Getenv("VERIF_REPO"); d != "" {
+		return d
+	}
+	return "/repo"
+}()
 const modPath = "github.com/metrico/qryn"
 
 type HarnessFile struct {
